@@ -320,14 +320,55 @@ theorem HostP_doSeek (cfg : Cfg) (s : St State) (w : MW) (n : Nat) (off : Int) (
     · exact HostP.ret (SameFds.refl _)
     · exact HostP_finishSeek _ _ _ (posix_lseek_sameFds _ _ _ _)
 
+theorem unlink_fds (s : State) (p : Bytes) : (s.unlink p).1.fds = s.fds := by
+  unfold State.unlink
+  repeat' split
+  all_goals rfl
+
+theorem rename_fds (s : State) (a b : Bytes) : (s.rename a b).1.fds = s.fds := by
+  unfold State.rename
+  repeat' split
+  all_goals rfl
+
+/-- the remaining path calls (unlink, rename; the others are not modelled) never touch the descriptor table of the host -/
+theorem posix_pathCall_sameFds (s : State) (name : String) (paths : List Bytes) :
+    SameFds s (posixHost.pathCall s name paths).1 := by
+  apply SameFds.of_fds
+  simp only [posixHost]
+  split
+  · have := unlink_fds s ‹Bytes›
+    generalize s.unlink _ = x at this ⊢
+    obtain ⟨s', r⟩ := x
+    cases r <;> exact this
+  · rename_i a b
+    have := rename_fds s a b
+    generalize s.rename a b = x at this ⊢
+    obtain ⟨s', r⟩ := x
+    cases r <;> exact this
+  · rfl
+
+/-- the tail every path call shares: translate the host result -/
+theorem HostP_pathTail {P : State → Prop} (w : MW) (x : State × R Nat) (hp : P x.1) :
+    HostP P (match x with
+      | (h', .unmodelled) => retUnmodelled w h'
+      | (h', .err e) => ret w h' (wasiErrno e)
+      | (h', .ok _) => ret w h' 0) := by
+  obtain ⟨h', r⟩ := x
+  cases r with
+  | ok n => exact HostP.ret hp
+  | err e => exact HostP.ret hp
+  | unmodelled => exact HostP.retU hp
+
 theorem HostP_simplePathCall (cfg : Cfg) (s : St State) (w : MW) (name : String) (n ptr len : Nat) :
     HostP (SameFds s.host) (simplePathCall cfg posixHost s w name n ptr len) := by
   unfold simplePathCall
   refine HostP.bind fun r => ?_
   split
   · exact HostP.ret (SameFds.refl _)
-  · simp only [posixHost]
-    exact HostP.retU (SameFds.refl _)
+  · generalize hx : posixHost.pathCall s.host _ _ = x
+    have hs : SameFds s.host x.1 := by rw [← hx]; exact posix_pathCall_sameFds _ _ _
+    obtain ⟨h', r⟩ := x
+    cases r <;> first | exact HostP.ret hs | exact HostP.retU hs
 
 /-- every read-only call leaves the set of open native descriptors of the host unchanged -/
 theorem stepRO_sameFds (cfg : Cfg) (abi : Abi) (s : St State) (c : ROCall) :
@@ -457,8 +498,10 @@ theorem stepRO_sameFds (cfg : Cfg) (abi : Abi) (s : St State) (c : ROCall) :
             · refine HostP.bind fun _ => HostP.bind fun r => ?_
               split
               · exact HostP.ret R0
-              · simp only [posixHost]
-                exact HostP.retU R0
+              · generalize hx : posixHost.pathCall s.host _ _ = x
+                have hs : SameFds s.host x.1 := by rw [← hx]; exact posix_pathCall_sameFds _ _ _
+                obtain ⟨h', r⟩ := x
+                cases r <;> first | exact HostP.ret hs | exact HostP.retU hs
   | pathUnlinkFile n p l => simp only [stepRO]; exact HostP_simplePathCall _ _ _ _ _ _ _
   | pathRemoveDirectory n p l => simp only [stepRO]; exact HostP_simplePathCall _ _ _ _ _ _ _
   | pathCreateDirectory n p l => simp only [stepRO]; exact HostP_simplePathCall _ _ _ _ _ _ _
@@ -474,15 +517,19 @@ theorem stepRO_sameFds (cfg : Cfg) (abi : Abi) (s : St State) (c : ROCall) :
         · refine HostP.bind fun _ => HostP.bind fun r => ?_
           split
           · exact HostP.ret R0
-          · simp only [posixHost]
-            exact HostP.retU R0
+          · generalize hx : posixHost.pathCall s.host _ _ = x
+            have hs : SameFds s.host x.1 := by rw [← hx]; exact posix_pathCall_sameFds _ _ _
+            obtain ⟨h', r⟩ := x
+            cases r <;> first | exact HostP.ret hs | exact HostP.retU hs
   | pathReadlink n p l buf bl lp =>
     simp only [stepRO]
     refine HostP.bind fun r => ?_
     split
     · exact HostP.ret R0
-    · simp only [posixHost]
-      exact HostP.retU R0
+    · have := posix_pathCall_sameFds s.host "readlink" [‹Bytes›]
+      generalize posixHost.pathCall s.host "readlink" _ = x at this ⊢
+      obtain ⟨h', r⟩ := x
+      cases r <;> first | exact HostP.ret this | exact HostP.retU this
   | nosys name fd => simp only [stepRO]; exact HostP.ret R0
 
 /-! ## the invariant -/
